@@ -42,7 +42,7 @@ Definition c16_noise (d : nat) (L : lmx S) (num : nat) (zs : list (T S)) : lmx S
 
 (* SimulatedStateModel over a WhiteNoiseAcceleration *)
 Definition c16_sim_ctor (d : Dim) (Ts q : T S) (x0 : lmx S) (len : nat) (zs : list (T S))
-  : option (@sim_state O (dim_n d)) :=
+  : sim_err + @sim_state O (dim_n d) :=
   @sim_ctor O (dim_n d) (fun x z => @wna_motion O d Ts q 1 x z) x0 len zs.
 Definition c16_sim_target (n : nat) (st : @sim_state O n) : list (lmx S) := sim_target st.
 Definition c16_sim_run (n : nat) (st : @sim_state O n) (ops : list sim_op)
